@@ -138,7 +138,11 @@ def main():
             if job.get('patched'):
                 # patched constants / stubs were used: confirm with the unpatched code
                 found2 = None
-                for k in range(600):
+                import time as _time
+                t_end = _time.time() + float(os.environ.get('VF_SEARCH_S', '45'))
+                for k in range(100000):
+                    if k >= 200 and _time.time() > t_end:
+                        break
                     vals = found['values'] if k == 0 else _perturb(found['values'], rng, k + 3)
                     out = run_unit_float(u, vals, jit=jit, unpatched=True, rng=random.Random(rng.random()))
                     if out['outcome'] in ('assumption-failed', 'engine'):
